@@ -346,6 +346,23 @@ def case_special(name):
                             run.ok("mesh.container", unit="container:orientation")
                         else:
                             run.fail("mesh.container", "tool=MeshContainer clause=orientation", "stacked container has non-positive cells or another cell type")
+                    # the meshes a container holds are meshes like any other: their own bookkeeping follows the shared points array,
+                    # and they can be concatenated with each other and with fresh meshes (the concatenate hook judges corners, volume
+                    # and orientation; here the covered volume and the absence of foreign points are stated explicitly)
+                    far = m.translate(7 * ext, 0)
+                    for parts, k in (([cont[0], far], 2), ([cont[0], cont[3]], 2), ([far, cont[1], cont[3]], 3)):
+                        for q in parts:
+                            if q.npoints != len(q.points) or len(q.points_without_cells) != q.npoints - len(np.unique(q.cells)):
+                                run.fail("mesh.container", "tool=MeshContainer clause=held-mesh-attributes", "a mesh held by a container reports npoints = %d and "
+                                         "%d points without cells for %d points of which %d are used" % (q.npoints, len(q.points_without_cells), len(q.points), len(np.unique(q.cells))))
+                                break
+                        else:
+                            run.ok("mesh.container", unit="container:held-mesh-attributes")
+                        cj = fem.mesh.concatenate(parts)
+                        vj = OC.signed_volumes(cj.points, cj.cells, cj.cell_type)
+                        run.compare("mesh.container", "tool=concatenate clause=volume-of-container-meshes", abs(vj.sum() - k * v0.sum()) / v0.sum(), 1e-11,
+                                    "concatenate of meshes taken out of a MeshContainer: covered volume differs from the sum of the parts",
+                                    unit="container:concatenate-held-meshes", config=("container-concatenate", m.cell_type, k))
             elif name == "fill_between":
                 for k in range(4):
                     n = int(rng.integers(3, 7))
@@ -392,7 +409,7 @@ def _required():
     req += ["flip:double", "mirror:reflection", "rotate:isometry", "add_midpoints_edges:centroid", "add_midpoints_faces:centroid",
             "add_midpoints_volumes:centroid", "add_midpoints_edges:layout", "add_midpoints_faces:layout",
             "add_midpoints_volumes:layout", "convert:layout", "merge:corners", "merge:separation", "merge:count", "merge:count:coarse", "merge:count:higher-order",
-            "container:volume", "fill_between:volume"]
+            "container:volume", "container:held-mesh-attributes", "container:concatenate-held-meshes", "fill_between:volume"]
     return req
 
 
